@@ -18,6 +18,8 @@ import (
 
 type funcIndex map[string]*ssa.Function
 
+var keepAll bool
+
 func loadProgram(repo string, debug bool) (*G, funcIndex, error) {
 	cfg := &packages.Config{Mode: packages.LoadAllSyntax, Dir: repo, BuildFlags: []string{"-tags=verif"},
 		Env: append(os.Environ(), "GOFLAGS=-mod=mod", "GOPROXY=off", "GOSUMDB=off", "GOTOOLCHAIN=local")}
@@ -170,7 +172,7 @@ func main() {
 	}
 	fs.Parse(args)
 	pos = append(pos, fs.Args()...)
-	_ = keep
+	keepAll = *keep
 	switch cmd {
 	case "check":
 		if len(pos) != 1 {
@@ -236,6 +238,13 @@ func runDump(pos []string, repo, out string, debug bool) int {
 			rc = 1
 		}
 		g.solveAll(ex.obls, dir, 10000, false)
+		if keepAll {
+			for i, o := range ex.obls {
+				if o.Solver != "syntactic" {
+					os.WriteFile(filepath.Join(dir, fmt.Sprintf("k%04d_%s.smt2", i, sanitizeFile(o.Name))), []byte(g.queryText(o, false)), 0o644)
+				}
+			}
+		}
 		for _, o := range ex.obls {
 			st := o.Result
 			if o.Cover {
